@@ -5,17 +5,25 @@ import struct, itertools
 ALL_IDS = [1, 2, 3, 4, 5, 6, 9, 10, 11, 12, 13, 14, 16, 21, 22, 23, 24, 25, 26, 27, 28, 29, 30, 31, 33]
 
 RULE = ("hist: histories of table operations (request default i / re-weight handle with s / add / compromise / "
-        "serialise+parse / observe), every step's result compared; exhaustive to length L over ids {1,2,11}, three "
-        "coding sequences and one cut-off, then random histories to length 8 over random ids (half generated linear, "
-        "half unconstrained), then two-step histories re-weighting a default table from coding sequences of length "
-        "0..10^5 (any case, non-ACGT letters, lengths not divisible by 3); conc: 2-4 goroutines re-weighting different "
-        "default tables. non-trivial = history with at least one re-weighting; distinct by case text")
+        "serialise+parse / observe), every step's result compared. First case: every default id requested once, untouched "
+        "(fresh-process check of weight 1 + regenerated assignment; every case also reports and judges the start tables it "
+        "names). Exhaustive to length L over ids {1,2,11}, three coding sequences (one with all 64 codons) and one cut-off; "
+        "random histories to length 8 over random ids (40 % with same-code neighbours 1/11, 27/28, 1/4; half generated linear, "
+        "half unconstrained); two-step histories re-weighting a default table from coding sequences of length 0..10^5 (any "
+        "case, non-ACGT ASCII incl. digits / blanks / line breaks, non-ASCII letters of 2-4 bytes); 50 000..100 000-letter "
+        "sequences with non-ASCII letters at / across byte offsets 4096k, 16384k, 49152, 65536; wide-alphabet sequences of "
+        "1000..5000 letters. conc: 2-4 writer goroutines re-weighting different default tables plus 0-2 reader goroutines "
+        "(GetCodonTable + AddCodonTable n times on ids no writer touches); the same cases under the race detector (quick: "
+        "once; thorough: GOMAXPROCS 1/2/16 x 20) together with two control cases that MUST come back as `race`. "
+        "non-trivial = history with at least one re-weighting; distinct by case text")
 EXHAUSTIVE = {"quick": True, "thorough": True}   # quick: all histories to length 3; thorough: to length 4
 SHARDS = {"quick": 4, "thorough": 16}            # cases are self-contained (start tables snapshotted / restored and reported per case)
-TRUSTED_BASE = ["harness resets the named default tables to weight 1 through the aliased slices before each history and "
-                "reports them; the Lean side checks the report against the regenerated tables",
+TRUSTED_BASE = ["harness: the first time a C08 op names a default id in a process it snapshots GetCodonTable(id) before anything "
+                "re-weights it; later cases restore that snapshot through the aliased slices; it never writes a weight of its own. "
+                "Every start table is reported (F = fresh, R = restored) and judged by the Lean side against the regenerated tables",
                 "encoding/json round trip of a Table is the identity on values (checked by correspondence only)",
-                "Go memory model / scheduler: the heap model's steps are atomic; data races are looked for with -race only",
+                "Go memory model / scheduler: the heap model's steps are atomic; data races are looked for with -race only "
+                "(control cases assert that the race runs are functional)",
                 "strings.ToUpper is modelled on ASCII only (see ASSUMPTIONS); range-over-string = one model Char per rune"]
 ASSUMPTIONS = ["coding sequences are valid Unicode text (any characters: letters of either case, digits, blanks, line breaks, "
                "punctuation, non-ASCII letters); invalid UTF-8 cannot be sent over the line protocol and is not exercised",
@@ -23,14 +31,15 @@ ASSUMPTIONS = ["coding sequences are valid Unicode text (any characters: letters
                "rune by rune (keeps the number of letters, so the frame) and maps no non-ASCII letter to A, C, G or T (U+0131 and "
                "U+017F go to I and S, nothing goes to ACGT); then every table over ACGT triplets gets the same weights under both",
                "weights and their sums stay below 2^53 (sequences of at most 10^5 letters)",
-               "int(NaN) is platform-defined in Go: from the first compromise step with an amino acid of total weight 0 onwards a "
-               "history is compared up to the code of the tables only (class suffix /nan)",
+               "int(NaN) is platform-defined in Go: the result of a compromise with an amino acid of total weight 0, and what is "
+               "added / compromised / serialised / observed from it, is compared up to the code of the table only (taint tracked "
+               "per handle and per cell; class suffix /nan); every other step of the same history is compared exactly",
                "add / compromise steps inside a history are judged for SHARING only: the value-semantics spec uses the model's "
                "addTable / compromise (their own spec is C18); a wrong sum inside a history shows as a correspondence DIFF"]
 PARTIAL = ["'a freshly requested default table always carries the pristine NCBI assignments with uniform weight 1' and "
            "'unaffected by earlier re-weightings' are FALSE of the code on non-linear histories (known findings "
            "C08-alias-default and C08-receiver-mutated, kernel-checked counterexamples alias_witness, stale_witness, "
-           "receiver_witness); history_refines proves them for Linear histories only. In a FRESH process the clause about "
+           "receiver_witness); history_refines_partial proves them for Linear histories only. In a FRESH process the clause about "
            "default tables is judged on every first use of an id (start table reported before anything re-weights it) and "
            "pinned by the theorem defaults_uniform on the regenerated tables",
            "'concurrent': disjoint_commute proves every interleaving of atomic re-weighting steps gives the same result; "
@@ -272,13 +281,16 @@ def extra_runs(seed, tier, case_lines):
 TECHNIQUE = ("Lean 4 refinement proof: heap model (explicit cell sharing) vs value-semantics spec over histories of any "
              "length; kernel-checked counterexample for the known aliasing defect; differential correspondence on histories, "
              "checked after every step; race detector for concurrent re-weighting")
-LEVEL_TEXT = ("frequency_exact (any length, any ASCII letters, any frame), reweight_keeps_code, history_refines (every Linear "
-              "history of any length: heap semantics = value semantics at every step), disjoint_commute / interleavings_agree "
-              "(all interleavings of re-weightings of different tables) are kernel-checked theorems; alias_witness is the "
-              "kernel-checked counterexample showing the unrestricted statement is false of the model, and the model is tied to "
-              "the code on every history, linear or not (heap model must agree everywhere; value semantics is the judge).")
-LEVEL_NOTE = ("Trusted: Lean kernel; harness + reported initial state; json round trip as identity; Go memory model "
-              "(race detector only); ASCII.")
+LEVEL_TEXT = ("frequency_exact / frequency_frames (any length, ANY letters incl. non-ASCII, any frame; no hypothesis), "
+              "reweight_exact, reweight_keeps_code, history_refines_partial (every Linear history of any length: heap semantics "
+              "= value semantics at every step), linear_get_pristine + defaults_uniform (a default table requested on a Linear "
+              "history is the regenerated one with weight 1), disjoint_commute / interleavings_agree / thread_result_independent "
+              "(all interleavings of re-weightings of different tables) are kernel-checked theorems; alias_witness, stale_witness, "
+              "receiver_witness(_steps) are the kernel-checked counterexamples showing the unrestricted statement is false of the "
+              "model, and the model is tied to the code on every history, linear or not (heap model must agree everywhere; value "
+              "semantics is the judge; a failure is a known finding only if it is exactly the heap model's).")
+LEVEL_NOTE = ("Trusted: Lean kernel; harness snapshot / restore + reported start tables; json round trip as identity; Go memory "
+              "model (race detector only); strings.ToUpper outside ASCII (rune-wise, nothing maps to A/C/G/T).")
 
 HARNESS_BIN = "run-codon"
 EXTRACT_BINS = ["extract-codon"]
